@@ -1435,6 +1435,11 @@ func (d *Data) storeAndUpdate(ctx *datastore.VersionedCtx, keyStr string, newDat
 	}
 	rcvJSON, _ := json.Marshal(newData)
 	origJSON, _ := json.Marshal(origData)
+	// remember the original fields for the field counts since updateJSON removes nulled fields from origData
+	origFields := make([]string, 0, len(origData))
+	for field := range origData {
+		origFields = append(origFields, field)
+	}
 	updateJSON(origData, newData, ctx.User, conditionals, replace)
 	newJSON, _ := json.Marshal(newData)
 	dvid.Infof("neuronjson %s put by user %q, conditionals %v, replace %t:\nOrig: %s\n Rcv: %s\n New: %s\n",
@@ -1447,7 +1452,7 @@ func (d *Data) storeAndUpdate(ctx *datastore.VersionedCtx, keyStr string, newDat
 		mdb.data[bodyid] = newData
 
 		// cache updated field and field timestamps
-		for field := range origData {
+		for _, field := range origFields {
 			mdb.fields[field]--
 		}
 		for field := range newData {
